@@ -16,7 +16,9 @@ tree of the real parsed statement with a recording Visitor.
 The clock and the random source are explicit: `now` is the single clock reading
 of a statement (the rewriter reads the clock once per `Do`), `rand k` the k-th
 value of `randFn`. A pinned time is the literal `lit "jd" "<k>"`, a random
-blob of n bytes the literal `lit "randblob" "<n>"`.
+blob of n bytes the literal `lit "randblob" "<n>"`, the number a `random()` call
+became `lit "randnum" "<value>"` (a NumberLit in the Go AST; the harness tells
+it from an original NumberLit by its position).
 
 This is the code AFTER the C14 `fix:` commits (see known_findings.d/C14.json):
 implicit 'now' (zero-argument date/time functions and format-only strftime) is
@@ -67,7 +69,7 @@ def Nodes.append : Nodes → Nodes → Nodes
   | .cons n ns, b => .cons n (ns.append b)
 
 /-- ASCII lower-casing (Go uses strings.EqualFold; identical on ASCII names) -/
-def lower (s : String) : String := s.map Char.toLower
+def lower (s : String) : String := String.ofList (s.toList.map Char.toLower)
 
 def timeFive : List String := ["date", "time", "datetime", "julianday", "unixepoch"]
 
@@ -130,13 +132,14 @@ def parseFloatFloor (cs : List Char) : Option Nat := do
 /-- the byte count `randomblob` is given by a NumberLit: `strconv.Atoi`, else a `0x` literal,
 else the integer part of a floating point literal (the scanner never puts a sign into a NumberLit) -/
 def parseIntLit (v : String) : Option Nat :=
-  match v.toNat? with
+  let cs := v.toList
+  match (if cs.isEmpty then none else digitsVal cs) with
   | some n => some n
   | none =>
-    match v.toList with
-    | '0' :: 'x' :: cs => parseHex cs
-    | '0' :: 'X' :: cs => parseHex cs
-    | cs => parseFloatFloor cs
+    match cs with
+    | '0' :: 'x' :: hs => parseHex hs
+    | '0' :: 'X' :: hs => parseHex hs
+    | _ => parseFloatFloor cs
 
 /-- replace the first / second argument when it is `now` -/
 def replNow0 (c : Cfg) : Nodes → Nodes
@@ -168,25 +171,48 @@ inductive Action where
   | keep (tr : ArgTr) (st : St)      -- the call stays, arguments transformed by `tr`
   | replace (n : Node) (st : St)     -- the call is replaced by a literal
 
-/-- the `case *sql.Call:` branch chain of `Visit` -/
-def visitCall (c : Cfg) (st : St) (name : String) (args : Nodes) : Action :=
+/-- which of the names compared with `strings.EqualFold` in `Visit` a call has -/
+inductive FnKind where
+  | five | strftime | timediff | random | randomblob | other
+deriving Repr, DecidableEq
+
+def classify (name : String) : FnKind :=
   let nm := lower name
-  if c.rwTime && timeFive.contains nm then
-    .keep .five { st with modified := true }
-  else if c.rwTime && decide (args.length > 0) && nm == "strftime" then
-    .keep .strftime { st with modified := true }
-  else if c.rwTime && decide (args.length > 1) && nm == "timediff" then
-    .keep .timediff { st with modified := true }
-  else if st.ordered == 0 && c.rwRand && nm == "random" then
-    .replace (.lit "number" (toString (c.rand st.randK))) { st with modified := true, randK := st.randK + 1 }
-  else if st.ordered == 0 && c.rwRand && nm == "randomblob" then
-    match args with
-    | .cons (.lit "number" v) .nil =>
-      match parseIntLit v with
-      | some n => .replace (.lit "randblob" (toString (max n 1))) { st with modified := true }
-      | none => .keep .none st
-    | _ => .keep .none st
-  else .keep .none st
+  if timeFive.contains nm then .five
+  else if nm == "strftime" then .strftime
+  else if nm == "timediff" then .timediff
+  else if nm == "random" then .random
+  else if nm == "randomblob" then .randomblob
+  else .other
+
+/-- the `case *sql.Call:` branch chain of `Visit`. The Go code is an `if / else if` chain
+whose conditions each contain one name comparison; the names are distinct constants, so the
+chain is a case distinction on the name followed by the remaining conditions of that branch
+(a failed condition falls through to branches for OTHER names, i.e. to "leave alone"). -/
+def visitCall (c : Cfg) (st : St) (name : String) (args : Nodes) : Action :=
+  match classify name with
+  | .five =>
+    if c.rwTime then .keep .five { st with modified := true } else .keep .none st
+  | .strftime =>
+    if c.rwTime && decide (args.length > 0) then .keep .strftime { st with modified := true }
+    else .keep .none st
+  | .timediff =>
+    if c.rwTime && decide (args.length > 1) then .keep .timediff { st with modified := true }
+    else .keep .none st
+  | .random =>
+    if st.ordered == 0 && c.rwRand then
+      .replace (.lit "randnum" (toString (c.rand st.randK))) { st with modified := true, randK := st.randK + 1 }
+    else .keep .none st
+  | .randomblob =>
+    if st.ordered == 0 && c.rwRand then
+      match args with
+      | .cons (.lit "number" v) .nil =>
+        match parseIntLit v with
+        | some n => .replace (.lit "randblob" (toString (max n 1))) { st with modified := true }
+        | none => .keep .none st
+      | _ => .keep .none st
+    else .keep .none st
+  | .other => .keep .none st
 
 /- `sql.Walk` with the rewriter as visitor: Visit, children in order, VisitEnd.
 In the Go code `Visit` edits `Args` BEFORE Walk descends into them; here the
